@@ -62,6 +62,8 @@ MATRIX = [
     dict(entry="cli_normalize", mode="content", initial="absent", base_hash="none", parent_missing=1),
     dict(entry="cli_seal", mode="content", initial="canonical", base_hash="none"),
     dict(entry="cli_seal", mode="content", initial="absent", base_hash="none"),
+    dict(entry="cli_hydrate", mode="content", initial="absent", base_hash="none"),
+    dict(entry="cli_hydrate", mode="content", initial="canonical", base_hash="none", fmode=0o600),
 ]
 
 
@@ -70,7 +72,8 @@ def gen_scenario(t: Tape, idx: int, tier: str) -> dict:
     if idx < len(MATRIX):
         sc = dict(MATRIX[idx])
     else:
-        entry = t.weighted([("tool", 6), ("atomic", 2), ("cli_write", 2), ("cli_normalize", 1), ("cli_seal", 1)], "sc.entry")
+        entry = t.weighted([("tool", 12), ("atomic", 4), ("cli_write", 4), ("cli_normalize", 2), ("cli_seal", 2), ("cli_hydrate", 1)],
+                           "sc.entry")
         sc = {"entry": entry}
         if entry == "tool":
             sc["mode"] = t.weighted([("content", 5), ("changes", 3), ("normalize", 2)], "sc.mode")
@@ -213,7 +216,26 @@ def layout(sc: dict):
         spec.append(("f", "sb/subdir/inner.md", b"inner\n", 0o644))
     if sc["entry"] in ("cli_normalize", "cli_seal"):
         spec.append(("f", "sb/source.oct.md", (sc.get("new_text") or "").encode(), 0o644))
+    if sc["entry"] == "cli_hydrate":
+        src, vocab = hydration_fixture()
+        spec.append(("f", "sb/hsrc/source.oct.md", src, 0o644))
+        spec.append(("f", "sb/hsrc/vocabulary.oct.md", vocab, 0o644))
     return spec, target_rel
+
+
+_hyd = None
+
+
+def hydration_fixture():
+    global _hyd
+    if _hyd is None:
+        d = os.path.join(docs.REPO, "tests", "fixtures", "hydration")
+        with open(os.path.join(d, "source.oct.md"), "rb") as f:
+            a = f.read()
+        with open(os.path.join(d, "vocabulary.oct.md"), "rb") as f:
+            b = f.read()
+        _hyd = (a, b)
+    return _hyd
 
 
 def base_hash_value(sc: dict, which: str | None = None):
@@ -273,6 +295,19 @@ def make_call(sc: dict, root: str, target_rel: str, writer: dict | None = None):
     if entry in ("cli_normalize", "cli_seal"):
         args = [entry[4:], os.path.join(root, "sb/source.oct.md"), "-o", target]
         return lambda: run_cli(args)
+    if entry == "cli_hydrate":
+        args = ["hydrate", os.path.join(root, "sb/hsrc/source.oct.md"), "--mapping",
+                "@test/vocabulary=" + os.path.join(root, "sb/hsrc/vocabulary.oct.md"), "-o", target]
+
+        def call():
+            # the hydrated text embeds HYDRATION_TIME: bind the hydrator's clock to the simulated one, restarted per run,
+            # so that a reference run and a faulted run of the same scenario produce the same bytes
+            from . import c06_calls
+
+            c06_calls.install_clock(c06_calls.SimClock(1_700_000_000.0))
+            return run_cli(args)
+
+        return call
     raise ValueError(entry)
 
 
